@@ -217,7 +217,34 @@ def judge(steps_by_h, groups, pnames, pvars=()):
                                            "zeros": z})
                     out.setdefault("nbad", 0)
                     out["nbad"] += 1
+                    bn = out.setdefault("bad_blocks", [])
+                    if name not in bn:
+                        bn.append(name)
     return out
+
+
+def build_mutated(G, prog, mut):
+    """sensitivity runs only (mutants/C43.md): emulate a mutant of mfront/src/*.cxx by rewriting the code it emits.
+    VERIF_C43_MUTATE_EMITTED = 'regex=>replacement' applied (first match per line, every line) to the generated header"""
+    from verifpy import mfront_generate, compile_generated
+    import hashlib
+    pat, rep = mut.split("=>", 1)
+    wd = os.path.join(WORK, "prog_mut", prog["name"] + "_" + hashlib.sha1(mut.encode()).hexdigest()[:8])
+    os.makedirs(wd, exist_ok=True)
+    src = os.path.join(wd, prog["name"] + ".mfront")
+    open(src, "w").write(prog["src"])
+    rc, so, se = mfront_generate(src, wd)
+    if rc != 0:
+        return None, "mfront failed: " + (so + se)[-1500:]
+    hx = os.path.join(wd, "include", "TFEL", "Material", prog["name"] + ".hxx")
+    txt = open(hx).read()
+    new, n = re.subn(pat, rep, txt)
+    open(hx, "w").write(new)
+    open(os.path.join(wd, "mutation.txt"), "w").write("%s\n%d substitutions\n" % (mut, n))
+    path, err = compile_generated(wd, prog["name"] + "_mut")
+    if path is None:
+        return None, "g++ failed: " + err
+    return G.Library(path, prog["name"], prog["hyps"]), ""
 
 
 def worker(case_path, out_path):
@@ -227,7 +254,11 @@ def worker(case_path, out_path):
     prog = case["prog"]
     res = {"ok": False, "error": "", "stage": "build"}
     t0 = time.time()
-    lib, err = G.build({"name": prog["name"], "src": prog["src"], "hyps": prog["hyps"]})
+    mut = os.environ.get("VERIF_C43_MUTATE_EMITTED", "")
+    if mut:
+        lib, err = build_mutated(G, prog, mut)
+    else:
+        lib, err = G.build({"name": prog["name"], "src": prog["src"], "hyps": prog["hyps"]})
     res["build_s"] = time.time() - t0
     if lib is None:
         res["error"] = err
@@ -379,7 +410,7 @@ def rnd_dir(rng, kind):
     return [x / n for x in v]
 
 
-def gen_loading(rng, cfg, li, parnames=None):
+def gen_loading(rng, cfg, li, force_theta=None):
     """strain history: list of steps {"de":[6], "dt":, "dT":, "dd":}"""
     ey = 1.0e-3  # ~ yield strain (sigma_y/E)
     visc = any(fl["flow"] != "Plastic" for fl in cfg.get("flows", []))
@@ -403,6 +434,10 @@ def gen_loading(rng, cfg, li, parnames=None):
         if cfg["sp"] == "damage":
             st["dd"] = rng.uniform(0.02, 0.12)
     L = {"steps": steps, "theta": rng.choice([1.0, 1.0, 0.5, 0.75, rng.uniform(0.5, 1.0)])}
+    if force_theta is not None:
+        L["theta"] = force_theta
+    elif any("Power" in K.ISO_CHOICES[fl["iso"]] for fl in cfg.get("flows", [])):
+        L["theta"] = 1.0  # known finding C43.jacobian.Power_p0_theta: theta != 1 is left to the probe
     if K.is_porous(cfg):
         L["f0"] = rng.choice([1e-3, 5e-3, 2e-2])
     if li >= 2:
@@ -410,10 +445,14 @@ def gen_loading(rng, cfg, li, parnames=None):
     return L
 
 
+def _pool(prefix, names):
+    return [n for n in names if prefix + n not in K.NOT_IN_POOL]
+
+
 def sample_flow(rng, porous_ok=True):
-    crit = rng.choice(list(K.CRITERIA))
+    crit = rng.choice(_pool("crit:", K.CRITERIA))
     fl = {"flow": rng.choice(list(K.FLOWS)), "crit": crit, "fcrit": None,
-          "iso": rng.choice(list(K.ISO_CHOICES)), "kin": rng.choice(list(K.KIN_CHOICES))}
+          "iso": rng.choice(list(K.ISO_CHOICES)), "kin": rng.choice(_pool("kin:", K.KIN_CHOICES))}
     if rng.random() < 0.15 and not K.CRITERIA[crit][1]:
         fl["fcrit"] = rng.choice(K.FLOW_CRITERIA)
     return fl
@@ -426,9 +465,7 @@ def sample_config(rng):
         if rng.random() < 0.12:
             cfg["flows"].append(sample_flow(rng))
         if rng.random() < 0.25:
-            cfg["nuc"] = rng.choice(list(K.NUCLEATION))
-        if K.is_porous(cfg) and rng.random() < 0.15:
-            cfg["palgo"] = "staggered"
+            cfg["nuc"] = rng.choice(_pool("nuc:", K.NUCLEATION))
         if K.is_porous(cfg) and rng.random() < 0.15:
             cfg["elastic_porosity"] = True
         if K.valid(cfg):
@@ -455,8 +492,8 @@ def config_values(cfg):
 def all_values():
     v = {"sp:" + s for s in K.STRESS_POTENTIALS} | {"crit:" + c for c in K.CRITERIA} | {"flow:" + f for f in K.FLOWS}
     v |= {"iso:" + i for i in K.ISO_CHOICES} | {"kin:" + k for k in K.KIN_CHOICES} | {"nuc:" + n for n in K.NUCLEATION}
-    v |= {"nuc:None", "flows:2", "palgo:staggered", "elastic_porosity"} | {"fcrit:" + c for c in K.FLOW_CRITERIA}
-    return v
+    v |= {"nuc:None", "flows:2", "elastic_porosity"} | {"fcrit:" + c for c in K.FLOW_CRITERIA}
+    return v - K.NOT_IN_POOL
 
 
 def covering_configs(n, seed):
@@ -482,19 +519,44 @@ def covering_configs(n, seed):
     return chosen, sorted(target1 - cov1), len(cov2)
 
 
-def make_case(cfg, seed, nload):
+def make_case(cfg, seed, nload, probe=None):
     prog = K.program(cfg)
     rng = random.Random("%s/%d" % (prog["name"], seed))
-    return {"prog": prog, "hs": HS, "loadings": [gen_loading(rng, cfg, li) for li in range(nload)]}
+    case = {"prog": prog, "hs": HS,
+            "loadings": [gen_loading(rng, cfg, li, (probe or {}).get("theta")) for li in range(nload)]}
+    if probe:
+        case["probe"] = probe
+    return case
+
+
+def _flow(**kw):
+    return dict({"flow": "Plastic", "crit": "Mises", "fcrit": None, "iso": "Linear", "kin": "none"}, **kw)
+
+
+# one dedicated program per known finding (the component is kept out of the pool, or restricted to the sub-domain
+# where it is right); `blocks`: the only blocks the defect may affect - anything else is reported under its own key
+PROBES = [
+    {"key": "C43.jacobian.Drucker1949_c_ne_1", "blocks": r"^dfeel_ddeel$",
+     "cfg": {"sp": "hooke", "flows": [_flow(crit="Drucker1949_probe")], "nuc": None, "variant": 0}},
+    {"key": "C43.jacobian.Power_p0_theta", "blocks": r"^dfp_ddp$", "theta": 0.5,
+     "cfg": {"sp": "hooke", "flows": [_flow(flow="Norton", iso="Power")], "nuc": None, "variant": 0}},
+    {"key": "C43.jacobian.ChuNeedleman1980_strain_dfn_ddp", "blocks": r"^dff_ddp$",
+     "cfg": {"sp": "hooke", "flows": [_flow()], "nuc": "CN_strain", "variant": 0}},
+    {"key": "C43.emitted_code.Chaboche2012_Phi", "blocks": r"^$", "build_error": "expected",
+     "cfg": {"sp": "hooke", "flows": [_flow(kin="Chaboche2012_Phi")], "nuc": None, "variant": 0}},
+]
 
 
 def expand_scales(case, parameters):
     """scale_seed -> explicit factors (needs the parameter list of the built library)"""
+    cfg = case["prog"].get("cfg", {})
+    # Drucker 1949 stays at c = 1 in the pool (known finding for c != 1)
+    drucker = any("Drucker1949" in (fl["crit"], fl.get("fcrit")) for fl in cfg.get("flows", []))
     for L in case["loadings"]:
         if "scale_seed" in L and "scale" not in L:
             r = random.Random(L["scale_seed"])
             L["scale"] = {n: round(math.exp(r.uniform(math.log(0.8), math.log(1.25))), 6)
-                          for n in sorted(parameters) if n not in NOT_SCALED}
+                          for n in sorted(parameters) if n not in NOT_SCALED and not (drucker and re.match(r"^(sc|fc)\w*_c\d*$", n))}
     return case
 
 
@@ -523,8 +585,13 @@ def key_of(cfg, block):
 def check_case(case):
     cfg = case["prog"].get("cfg", {})
     r = run_worker(case, "run")
+    probe = case.get("probe")
     if not r.get("ok"):
-        return _res_build_failure(case, r)
+        res = _res_build_failure(case, r)
+        if probe and probe.get("build_error") and probe["build_error"] in r.get("error", "") and r.get("stage") == "build":
+            res.key = probe["key"]
+            res.msg = "the code emitted for this configuration does not compile: " + res.msg
+        return res
     expand_scales(case, r["parameters"])  # what the worker did: make it explicit in the case (replay file)
     s = r["summary"]
     classes = ["programs"]
@@ -534,6 +601,8 @@ def check_case(case):
         b = s["bad"][0]
         res.ok = False
         res.key = key_of(cfg, b["block"])
+        if probe and all(re.match(probe["blocks"], n) for n in s.get("bad_blocks", [])):
+            res.key = probe["key"]
         res.msg = ("block %s of %s differs from the numerical Jacobian for both perturbations: e(1e-7)=%.3g e(1e-8)=%.3g "
                    "(tol %.0e, |Jn1-Jn2|/S=%.2g) at loading %d step %d iterate %d, entry %d: Ja=%.10g Jn=%.10g / %.10g; %d bad blocks; cfg=%s"
                    % (b["block"], case["prog"]["name"], b["e1"], b["e2"], TOL, b["d12"], b["tag"]["l"], b["tag"]["s"], b["it"],
@@ -595,6 +664,8 @@ def main():
     u.note("fixed core %d configurations (values never covered: %s; %d value pairs), %d seed dependent, %d StandardElasticity; "
            "%d loadings each" % (len(core), missing, npairs, len(extra), len(el), nload))
     cases = [make_case(c, SEED, nload) for c in cfgs]
+    if int(param("probes", 1)):
+        cases += [make_case(p["cfg"], SEED, nload, probe={k: v for k, v in p.items() if k != "cfg"}) for p in PROBES]
 
     def go(case):
         try:
@@ -611,7 +682,7 @@ def main():
     covered = set()
     for case, r in zip(cases, results):
         cfg = case["prog"]["cfg"]
-        sub = "elasticity" if cfg.get("brick") == "elasticity" else "sevp"
+        sub = "elasticity" if cfg.get("brick") == "elasticity" else ("probes" if case.get("probe") else "sevp")
         s = r.summary
         if s:
             for k in tot:
@@ -626,9 +697,9 @@ def main():
                 sd["classes"]["excluded." + k] = sd["classes"].get("excluded." + k, 0) + v
         if r.ok:
             nt = r.nontrivial or (sub == "elasticity" and s["iterates"] > 0)
-            if nt:
+            if nt and sub != "probes":
                 covered |= config_values(cfg)
-            u.case(sub, {"cfg": cfg}, nt, sorted(config_values(cfg)) if sub == "sevp" else ["sp:" + cfg["sp"]], r.errs,
+            u.case(sub, {"cfg": cfg}, nt, sorted(config_values(cfg)) if sub != "elasticity" else ["sp:" + cfg["sp"]], r.errs,
                    sample={"cfg": cfg, "nontrivial_iterates": s["nontrivial"], "iterates": s["iterates"]})
         else:
             if r.key.startswith("C43.harness"):
